@@ -6,6 +6,7 @@ mod bits;
 mod builder;
 mod common;
 mod decode;
+mod decode_checks;
 mod field;
 mod frame;
 mod lists;
@@ -24,8 +25,8 @@ fn main() {
         std::process::exit(replay::replay(&ctx, p));
     }
     let (rep, meta) = match ctx.prop.as_str() {
-        "C01" => decode::c01a(&ctx),
-        "C02" => decode::c02(&ctx),
+        "C01" => decode_checks::c01a(&ctx),
+        "C02" => decode_checks::c02(&ctx),
         "C07" => bits::c07(&ctx),
         "C10" => msm::c10(&ctx),
         "C12" => builder::c12(&ctx),
